@@ -138,6 +138,8 @@ def run(tier, seed, replay):
                 ops.add(s)
         if (o.get("params") or {}).get("kind") == "solver":
             ops.add("setup+solve")
+        if (o.get("params") or {}).get("kind") == "input-functions":
+            ops.add("all shipped input-function classes evaluated concurrently on shared objects")
     verdict.extra["workloads_run_under_tsan"] = sorted(ops)
     # ---- region / team-size coverage from the OMPT trace run (evidence only)
     if replay is None:
